@@ -82,3 +82,27 @@ CHECKS['C19'] = dict(
          'start/stop; direction options; every option chain rejects undocumented values with ValueError and accepts documented ones; dimensionality / fitted-state / override / '
          'required-key / type / label-count guards; every raise is a ValueError.',
     note='Trusted: neurodsp check_param_range / check_param_options summaries (source read); exceptions raised inside dependencies (e.g. fs == 0) are out of scope.')
+
+CHECKS['C13'] = dict(
+    technique='schema conformance of the epoch partition by symbolic normal-form equality + scenario reachability of detector calls (shared vs per-epoch options) on the call trace',
+    text='epoch_df is shown (both centrings) to be the half-open (k*L, (k+1)*L] selection on the closing side extremum with every sample column shifted by k*L; '
+         'compute_features_2d(axis=None) analyses the flattened array once with the first option set; with None / one dictionary no detector can run on an epoch table and '
+         'the epoched flat analysis is returned; with a list, epoch k is re-labelled by the detector of option set k with its thresholds; detectors are total on empty epochs. '
+         'The partition property itself follows from the hand argument recorded in the evidence.',
+    note='Trusted: reference in sa/refspec/frames.py; iloc row selection keeps order; hand argument for half-open intervals.')
+
+CHECKS['C11'] = dict(
+    technique='who-may-call / ordered-map rule on the resolved pool primitive per option x progress scenario, producer-consumer argument-shape agreement (zip vs proxy), taint of n_jobs/progress on the call trace, effect summaries',
+    text='For every schedule: result order is fixed by the pool primitive and the collection idiom, both decided here for all nine options x progress scenarios (imap + '
+         'list(...) through an order-preserving progress wrapper); rows and per-row options are zipped in order and the proxy unpacks them in the same order; shared options '
+         'reach compute_features unchanged except return_samples, which is overridden by the function\'s own; n_jobs only sizes the pool and progress only selects the bar; '
+         'no argument is written through, no module-level state exists for workers to share; BycycleGroup models agree position by position. Pickling fidelity and OS scheduling are trusted.',
+    note='Trusted: multiprocessing.Pool.imap/map/starmap ordering (stdlib docs); tqdm iterates its iterable in order.')
+
+CHECKS['C12'] = dict(
+    technique='affine index agreement on the symbolic read-back store (coefficient of the outer loop variable == inner extent), C-order flatten agreement, ordered-map and swap/unswap guard agreement on the call trace, decision table for 3-D option shapes',
+    text='For every shape (n0, n1) symbolically: with axis=(0,1) signals and 2-D option lists are flattened in the same C order, delegated to the 2-D function and entry [i][j] reads '
+         'flat index i*n1 + j into a container with distinct rows; with axis 0/1 the slices of sigs / swapaxes(sigs,0,1) are zipped in order with their options (a shared set '
+         'replicated once per iterated slice), mapped with an order-preserving primitive, analysed by compute_features_2d(axis=None), and transposed back exactly for axis 1; '
+         'n_jobs/progress do not interfere; BycycleGroup models agree [i][j]; invalid option-list shapes are rejected (decision table).',
+    note='Trusted: C-order semantics of ndarray.reshape / flatten, np.swapaxes, zip(*rows); C11 for the delegated 2-D call.')
